@@ -23,7 +23,7 @@ from ..gutil import maxabs
 
 LEVEL = "exploration"
 RULE = ("attitudes: 4 axes x {0,0.1,1,pi/2,2.5} both signs; v_b, w in {0,(1,-2,3),generic}; rotor speeds {0, hover, (600,700,800,900)}; commands {speed-100, speed, speed+100, differential (+100,-100,+50,-20)}; "
-        "attitudes inside the gimbal band with roll; quaternions scaled by 1+-1e-3, 1+1e-7, 1-1e-5, 1.02 (norm clause); commands within parts per million of the speeds; z in {2, 0.01}; parameter sets: default, asymmetric geometry, 16 spin patterns, scaled mass/inertia, aero on. non-trivial = non-zero rotor speed or rate; distinct by raw bytes")
+        "states harvested along 10 rays (height, pitch, roll, yaw, rotor speed, command through the speed, airspeed, body rate, quaternion scalar part); attitudes inside the gimbal band with roll; quaternions scaled by 1+-1e-3, 1+1e-7, 1-1e-5, 1.02 (norm clause); commands within parts per million of the speeds; z in {2, 0.01}; parameter sets: default, asymmetric geometry, 16 spin patterns, scaled mass/inertia, aero on. non-trivial = non-zero rotor speed or rate; distinct by raw bytes")
 ASSUMPTIONS = ["reference rigid-body equations in numpy double", "states on or below the ground plane (z <= 0) are outside the quantifier"]
 
 _M = {}
@@ -191,6 +191,56 @@ def explore(case):
                     res.count("evaluations")
                     if maxabs(xd2 - want2) > 1e-9 * (1 + maxabs(want2)):
                         res.fail(site="quadrotor.f", clause="equivariant_under_yaw_and_horizontal_translation", cls=cls, detail=dict(info, psi=psi, delta=delta, got=xd2, want=want2), sub="model", case=case)
+    # states next to every outcome change of the compiled model along rays through the state / command space (height down to the ground,
+    # pitch, roll and yaw through their ranges, one rotor speed, one command through its rotor's speed on a logarithmic grid, airspeed and
+    # body rate from zero): a band, dead zone or snap between two lattice members is met by the members harvested next to it
+    if pname.split("_")[0] in ("default", "aero", "asym") or tier == "thorough":
+        from .. import harvest, sxvm
+        prog = sxvm.compile_fn(f)
+        q_gen = ref.quat_of(ref.logm_rot(ref.R_from_euler321([0.3, 0.5, 0.4])), 1)
+        base = np.concatenate([[0.4, -1.2, 2.0], vbs[1], q_gen, ws[1], oms[2]])
+        u_base = oms[2] + np.array([30.0, -10.0, 0.0, 5.0])
+        logs = sorted([0.0] + [s_ * 10.0 ** e for e in range(-9, 4) for s_ in (1.0, -1.0)])
+        hp = math.pi / 2
+
+        def with_(idx, vals, x0=base):
+            x = np.array(x0, dtype=float)
+            x[idx] = vals
+            return x
+        rays = [("height", lambda t: (with_([2], [t]), u_base), [1e-6, 1e-5, 1e-4, 1e-3, 1e-2, 0.03, 0.06, 0.1, 0.2, 0.5, 1.0, 3.0, 10.0, 100.0]),
+                ("pitch", lambda t: (with_(slice(6, 10), ref.quat_of(ref.logm_rot(ref.R_from_euler321([0.3, t, 0.4])), 1)), u_base), [-hp + 2e-3] + [k * hp / 12 for k in range(-11, 12)] + [hp - 2e-3]),
+                ("roll", lambda t: (with_(slice(6, 10), ref.quat_of(ref.logm_rot(ref.R_from_euler321([0.3, 0.5, t])), 1)), u_base), [k * math.pi / 8 for k in range(-8, 9)]),
+                ("yaw", lambda t: (with_(slice(6, 10), ref.quat_of(ref.logm_rot(ref.R_from_euler321([t, 0.5, 0.4])), 1)), u_base), [k * math.pi / 8 for k in range(-8, 9)]),
+                ("rotor_speed_0", lambda t: (with_([13], [t]), u_base), [k * 100.0 for k in range(0, 16)]),
+                ("command_minus_speed_1", lambda t: (base, u_base + np.array([0, base[14] + t - u_base[1], 0, 0])), logs),
+                ("relative_command_2", lambda t: (base, with_([2], [base[15] * (1 + t)], u_base)), [x_ * 1e-3 for x_ in logs]),
+                ("airspeed", lambda t: (with_(slice(3, 6), vbs[1] / np.linalg.norm(vbs[1]) * t), u_base), [0.0, 1e-9, 1e-6, 1e-5, 1e-4, 1e-3, 1e-2, 0.1, 1.0, 10.0, 50.0]),
+                ("body_rate", lambda t: (with_(slice(10, 13), ws[1] / np.linalg.norm(ws[1]) * t), u_base), [0.0, 1e-9, 1e-6, 1e-3, 1e-2, 0.1, 1.0, 10.0, 30.0]),
+                ("quaternion_scalar_part", lambda t: (with_(slice(6, 10), ref.quat_of(np.array([0.6, -0.64, 0.48]) * t, 1)), u_base), [k * math.pi / 8 for k in range(0, 17)])]
+        for tag, mk, ts in rays:
+            try:
+                mem = harvest.ray_members(prog, lambda t: [list(mk(t)[0]), list(mk(t)[1]), list(pv)], ts, per_cell=(8 if tier == "quick" else 24), cap=60)
+            except sxvm.NotRational:
+                mem = []
+            res.count("harvested_members", len(mem))
+            mids = [(a + b) / 2 for a, b in zip(ts, ts[1:])]
+            for t in list(mem) + mids:
+                x, u = mk(t)
+                if x[2] <= 0:
+                    continue
+                res.count("evaluations")
+                res.nontrivial.add(hash(x.tobytes() + np.asarray(u).tobytes() + pname.encode()))
+                xd = np.array(f(x, u, pv), dtype=float).reshape(-1)
+                want, a_b, M = ref_xdot(x, np.asarray(u, dtype=float), d)
+                info = dict(params=pname, x=x, u=u, ray=tag, t=t)
+                if not np.all(np.isfinite(xd)) or maxabs(xd - want) > 1e-9 * (1 + maxabs(want)):
+                    kbad = int(np.argmax(np.abs(xd - want))) if np.all(np.isfinite(xd)) else -1
+                    res.fail(site="quadrotor.f", clause="state_derivative_is_rigid_body_derivative", cls=pname.split("_")[0] + ";ray=" + tag, detail=dict(info, got=xd, want=want, component=kbad), sub="model", case=case)
+                    break
+                y = np.array(g_accel(x, u, pv, np.zeros(3), 0.01), dtype=float).reshape(-1)
+                if maxabs(y - a_b) > 1e-9 * (1 + maxabs(a_b)):
+                    res.fail(site="quadrotor.g_accel", clause="specific_force_is_rotor_sum", cls=pname.split("_")[0] + ";ray=" + tag, detail=dict(info, y=y, want=a_b), sub="model", case=case)
+                    break
     # the tables the model ships are consumed by position (`sim()`, the simulation scripts pass `p_defaults.values()` / `x0_defaults.values()`):
     # they must list the entries in the order of the parameter / state vectors, and a positional evaluation must equal the by-name one
     pnames = [m["p"][i].name() for i in range(m["p"].shape[0])]
